@@ -3,7 +3,10 @@ import Driver.Sec
 import Driver.Brk
 import Driver.C01
 import Driver.C04
+import Driver.C06
+import Driver.C10
 import Driver.C12
+import Driver.C15
 import Driver.C16
 import Driver.C17
 import Driver.C19
@@ -42,6 +45,9 @@ def main (args : List String) : IO UInt32 := do
   | ["C18"] => loopSt stdin stdout Brk.stepLine {}; return 0
   | ["C03"] => loopSt stdin stdout Sec.step {}; return 0
   | ["C04"] => loopSt stdin stdout C04.step {}; return 0
+  | ["C06"] => loopSt stdin stdout C06.step {}; return 0
+  | ["C10"] => loopSt stdin stdout C10.step {}; return 0
+  | ["C15"] => loopSt stdin stdout C15.step {}; return 0
   | ["C12"] => loop stdin stdout C12.step; return 0
   | ["C16"] => loop stdin stdout C16.step; return 0
   | ["C17"] => loop stdin stdout C17.step; return 0
